@@ -51,8 +51,10 @@ LEVEL_NOTE = ("Unmodelled: binary64 rounding of numpy arange with a fractional s
               "products, tolerance-sized offsets around every comparison and size thresholds (16 .. 1025 samples) are "
               "generator-bounded correspondence on dyadic axes; every lattice point of a few non-dyadic axes is swept by the "
               "free-mode monitors.")
-TECHNIQUE = ("Lean 4 proof over model; symbolic-trace equality obligations for the crop_dim / extend_dim kernels; exact "
-             "differential correspondence on dyadic axes; free-mode monitors for arange rounding")
+TECHNIQUE = ("Lean 4 proof over model; symbolic-trace equality obligations for the crop_dim / extend_dim kernels; table "
+             "obligations for the signature defaults and the positional order of the seven public signatures; exact "
+             "differential correspondence on dyadic axes (single calls in every call style, chained histories, sessions of "
+             "independent calls); free-mode monitors for arange rounding")
 RULE = ("dyadic axes of 1-40 points x every width 1..2n+3 x three positions x step attribute present/absent; crop and "
         "extend requests on, between and beyond coordinates with all closedness flags; cells with NaN / +-inf / fill-equal "
         "values over 1-d, 2-d and 3-d layouts; histories of 2-4 crop_dim / extend_dim / adjust_dim_width calls on "
